@@ -842,3 +842,21 @@ def no_identity_on_values(ck, rels, rule='IS-literal'):
                                       key='{}|{}|{}'.format(rule, rel, u(node)[:50]))
                     left = right
     ck.ob(rule, ','.join(rels)[:80], True, 'identity comparisons against values: {} found'.format(n), key=rule + '|ran|' + ','.join(rels)[:120])
+
+
+# ----------------------------------------------------------------------------------------------------------------------
+def no_store_unless_present(ck, rels, rule='STORE-overwrite'):
+    """`d.setdefault(k, v)` as a statement stores v only when k is absent.  Where a clause says "records / sets / overrides", a value that is
+    already there must be replaced: the pinned tree has no such statement at all, so each new one is reported for triage."""
+    n = 0
+    for rel in rels:
+        module = ck.index.mod(rel)
+        for qual, fn in module.functions.items():
+            for st in walk_local(fn):
+                if isinstance(st, ast.Expr) and isinstance(st.value, ast.Call) and call_attr(st.value) == 'setdefault' and len(st.value.args) == 2 \
+                        and not _is_container(st.value.args[1]):
+                    n += 1
+                    ck.ob(rule, module.loc(st), False, '{}: `{}` keeps a value that is already stored under that key; an assignment would replace it'.format(qual, u(st)[:90]),
+                          key='{}|{}|{}|{}'.format(rule, rel, qual, u(st.value.func.value)[:40]))
+    ck.ob(rule, ','.join(rels)[:80], True, 'store-unless-present statements (`x.setdefault(k, v)` with a non-container v, result discarded): {} found'.format(n),
+          key=rule + '|ran|' + ','.join(rels)[:120])
